@@ -243,12 +243,19 @@ func ApplyAuditLogParts(base AuditLogParts, modification string) (AuditLogParts,
 		}
 	}
 
-	// Convert map back to slice, maintaining the canonical order
+	// Convert map back to slice, maintaining the canonical order. The mandatory header (A) and
+	// end marker (Z) are not modifiable, so they are carried over from the base as they were.
 	result := make([]AuditLogPart, 0, len(partsMap))
+	if _, ok := partsMap[AuditLogPartHeader]; ok {
+		result = append(result, AuditLogPartHeader)
+	}
 	for _, part := range orderedAuditLogParts {
 		if _, ok := partsMap[part]; ok {
 			result = append(result, part)
 		}
+	}
+	if _, ok := partsMap[AuditLogPartEndMarker]; ok {
+		result = append(result, AuditLogPartEndMarker)
 	}
 
 	return AuditLogParts(result), nil
